@@ -2,34 +2,44 @@ import HailVerif.Model.FifoSem
 import HailVerif.Model.DriverUtil
 open HailVerif HailVerif.DriverUtil HailVerif.FifoSem
 
-/-- canonical state line: free value, holder ids (sorted), queue ids (queue order), ids granted by this step (grant order) -/
+/-- canonical state line: free value, ids in the body (sorted), queue ids (queue order), ids that entered the body during
+this group (in order of entry) -/
 def showState (s : State) (e : List Ev) : String :=
   let hs := (ids s.holders).toArray.qsort (· < ·) |>.toList
-  let g := e.filterMap fun | .grantNow i => some i | .grantQueued i => some i | .enqueue _ => none
+  let g := e.filterMap fun | .grantNow i => some i | .resumed i => some i | _ => none
   let f := fun (l : List Nat) => joinWith "," (l.map toString)
   s!"v={s.value} h={f hs} q={f (ids s.queue)} g={f g}"
 
-/-- lines: `cap N` (new semaphore), `acquire i w`, `release i`; `err` = not a behaviour of the protocol -/
+def parseOp (ws : List String) : Option Op :=
+  match ws with
+  | ["acquire", i, w] => do some (.acquire (← i.toNat?) (← w.toNat?))
+  | ["release", i] => do some (.release (← i.toNat?))
+  | _ => none
+
+/-- the atomic blocks of one group run back to back inside one loop iteration (no woken waiter runs in between); then the
+loop runs to quiescence: every woken waiter resumes, in the order in which it was woken (`settleOps`) -/
+def runGroup (s : State) (ops : List Op) : Option (State × List Ev) :=
+  match run s ops with
+  | none => none
+  | some (s1, e1) =>
+    match run s1 (settleOps s1) with
+    | none => none
+    | some (s2, e2) => some (s2, e1 ++ e2)
+
+/-- lines: `cap N` (new semaphore) or a group `op;op;…` with op = `acquire i w` | `release i`; `err` = not a behaviour -/
 def handle (st : Option State) (line : String) : Option State × String :=
   match words line, st with
   | ["cap", n], _ =>
     match n.toNat? with
     | some c => (some (init c), showState (init c) [])
     | none => (st, "bad-op")
-  | ["acquire", i, w], some s =>
-    match i.toNat?, w.toNat? with
-    | some i, some w =>
-      match step s (.acquire i w) with
-      | some (s', e) => (some s', showState s' e)
-      | none => (st, "err")
-    | _, _ => (st, "bad-op")
-  | ["release", i], some s =>
-    match i.toNat? with
-    | some i =>
-      match step s (.release i) with
-      | some (s', e) => (some s', showState s' e)
-      | none => (st, "err")
+  | _, some s =>
+    match (line.splitOn ";").mapM (fun t => parseOp (words t)) with
     | none => (st, "bad-op")
-  | _, _ => (st, "bad-op")
+    | some ops =>
+      match runGroup s ops with
+      | some (s', e) => (some s', showState s' e)
+      | none => (st, "err")
+  | _, none => (st, "bad-op")
 
 def main : IO Unit := foldLines (none : Option State) handle
